@@ -2691,6 +2691,19 @@ package gomatrixserverlib
 //@   property C18:safety
 //@   inline
 
+// The auth state a not-yet-built event needs (what EventBuilder.AddAuthEvents asks the provider for): computed from the
+// proto event's own type, sender, state key and content (that sender and target end up in the list is
+// accumulateStateNeeded's contract; the step across util.UniqueStrings is not proved)
+//@ func StateNeededForProtoEvent
+//@   property C09, C18:safety
+//@   requires protoEvent != nil
+//@   ensures ordinary-events: (err == nil && protoEvent.Type != "m.room.create" && protoEvent.Type != "m.room.aliases" && protoEvent.Type != "m.room.member") ==> (result.Create && result.PowerLevels)
+//@   ensures alias-events: protoEvent.Type == "m.room.aliases" ==> result.Create
+//@   ensures member-events: (err == nil && protoEvent.Type == "m.room.member") ==> (result.Create && result.PowerLevels)
+//@   calls accumulateStateNeeded@root from-the-proto-events-own-fields: eventType == root_protoEvent.Type && string(sender) == root_protoEvent.SenderID && stateKey == root_protoEvent.StateKey
+//@   calls Unmarshal@root the-proto-events-content: str(data) == str(root_protoEvent.Content)
+//@   assigns nothing
+
 // StateNeededForAuth: builds a new StateNeeded; it appends only to slices of its own result and sorts those, so it
 // writes nothing the caller can see. ASSUMED (by inspection), used as a frame by authAndApplyEvents; what the
 // result contains is accumulateStateNeeded's verified contract per event.
